@@ -29,6 +29,7 @@ func verifC02Case(vc *verifCtx, i int, sysCrashAt int, schedSeedIdx int) {
 		return
 	}
 	defer e.Close()
+	e.richAdds = true
 	e.oracles = map[string]bool{"tx_exact": false}
 	check := func(label string) {
 		if e.ended {
